@@ -31,7 +31,7 @@ CLAUSES = {
     "C05": ["C05_NoEmit", "C05_NoEffect"],
     "C06": ["C06_Off"],
     "C07": ["C07_Tool", "C07_Coolant", "C07_Modal", "C07_Temps", "C07_Params"],
-    "C20": ["C20_Count", "C20_Geometry", "C20_Params"],
+    "C20": ["C20_Count", "C20_Geometry", "C20_Params", "C20_Extrusion", "C20_ExtrusionF14"],
 }
 PROFILE = {"C01": "motion", "C02": "interlock", "C03": "bounds", "C05": "mixed", "C06": "interlock",
            "C07": "mixed", "C20": "hooks"}
@@ -290,6 +290,26 @@ def make_controls(pid):
         ctl.append(mut("C20_Geometry", 11, lambda e, t: bump(e["hooks"][0]["o"][0])))
         ctl.append(mut("C20_Geometry", 15, lambda e, t: bump(e["hooks"][0]["t"][0])))
         ctl.append(mut("C20_Params", 4, lambda e, t: bump(e["hooks"][0]["pout"]["E"])))
+        # the bundled extrusion hook: a real history, then one E word off by 0.05 mm
+        s2 = Session(dp=3, exact=False)
+        for d in [{"call": "add_extrusion_hook", "lh": 0.2, "nd": 0.4, "fd": 1.75}, {"call": "move", "ax": [0.0, 0.0, 0.2]},
+                  {"call": "move", "ax": [10.0, 0.0, None]}, {"call": "move", "ax": [10.0, 7.5, None]},
+                  {"call": "set_extrusion_mode", "mode": "relative"}, {"call": "move", "ax": [2.0, 2.5, None]}]:
+            s2.apply(d)
+        b2 = s2.trace({"driver": "control-base"})
+
+        def mut2(clause, step, fn):
+            t = copy.deepcopy(b2)
+            fn(t["ev"][step - 1])
+            t["meta"]["control"] = {"clause": clause, "step": step}
+            return t
+
+        def bump_e(e, by):
+            for w in e["lines"][0]["ws"]:
+                if w["l"] == "E":
+                    w["v"] += by
+        ctl.append(mut2("C20_Extrusion", 4, lambda e: bump_e(e, 50)))
+        ctl.append(mut2("C20_Extrusion", 6, lambda e: bump_e(e, -40)))
     return ctl
 
 
@@ -385,7 +405,10 @@ def run(pid, tier, replay_path=None):
         for i in range(nr):
             exact = (i % 3) != 2
             dp = None if exact else [2, 3, 4][i % 3]
-            tr, ds = builder_drv.random_trace(sd * 1000 + i, profile=PROFILE[pid], exact=exact, dp=dp)
+            prof = PROFILE[pid]
+            if pid == "C20" and i % 2 == 1:
+                prof, exact, dp = "extrusion", False, 3
+            tr, ds = builder_drv.random_trace(sd * 1000 + i, profile=prof, exact=exact, dp=dp)
             traces.append(tr)
             descs.append(ds)
     nreal = len(traces)
